@@ -407,14 +407,30 @@ def r5(run, ctx):
     # the valid-key gate: a key that is in no table never leaves validate_option normally
     cfg = ctx.cfg(vo)
 
+    from sa.dataflow import reaching_defs
+    rdv = reaching_defs(ctx, vo)
+    gate = [t for t in cfg.nodes if t.kind == 'test' and any(
+        isinstance(x, ast.Compare) and norm_text(x.left) == 'key' and
+        isinstance(x.ops[0], (ast.In, ast.NotIn)) for x in ast.walk(t.ast))]
+
     def unknown_key(e):
-        m = member_test(e, 'key', 'valid_keys')
-        if m is not None:
-            return not m
-        if isinstance(e, ast.Call) and dotted(e.func) == '_valid_prefix':
+        """the key is in no table: not among the valid keys (a tuple of >= 10 literal
+        names, possibly through a local) and matches no valid prefix"""
+        if isinstance(e, ast.Compare) and len(e.ops) == 1 and norm_text(e.left) == 'key' and \
+                isinstance(e.ops[0], (ast.In, ast.NotIn)) and gate:
+            for a in rdv.expand(gate[0], e.comparators[0]):
+                if isinstance(a.expr, (ast.Tuple, ast.List, ast.Set)) and len(a.expr.elts) >= 10:
+                    return isinstance(e.ops[0], ast.NotIn)
+        if isinstance(e, ast.Call) and dotted(e.func) == 'any' and e.args and \
+                isinstance(e.args[0], (ast.GeneratorExp, ast.ListComp)) and \
+                'key.startswith(' in norm_text(e.args[0].elt):
             return False
-        if isinstance(e, ast.Call) and dotted(e.func) == 'any' and 'valid_prefixes' in norm_text(e):
-            return False
+        # the same test kept in a nested helper
+        if isinstance(e, ast.Call) and isinstance(e.func, ast.Name) and not e.args:
+            for x in ast.walk(vo.node):
+                if isinstance(x, ast.FunctionDef) and x.name == e.func.id and x is not vo.node \
+                        and 'key.startswith(' in norm_text(x):
+                    return False
         return None
     r = reach_under(cfg, cfg.entry, unknown_key)
     refusals = [n for n in cfg.nodes if n.id in r and n.kind == 'stmt' and
